@@ -118,6 +118,58 @@ func isToLowerOf(v ssa.Value, arg ssa.Value) bool {
 	return flow.StripConv(c.Call.Args[0]) == arg || c.Call.Args[0] == arg
 }
 
+// reverseLookup: h(name string) (K, bool) returns (key, true) only for the row of the table whose value equals name, and
+// (anything, false) otherwise.
+func reverseLookup(h *ssa.Function, table *types.Var) bool {
+	if h == nil || len(h.Blocks) == 0 || len(h.Params) != 1 || h.Signature.Results().Len() != 2 {
+		return false
+	}
+	nTrue := 0
+	for _, ret := range flow.Returns(h) {
+		rs := flow.RetResults(ret)
+		k, isK := rs[1].(*ssa.Const)
+		if !isK || k.Value == nil {
+			return false
+		}
+		if k.Value.String() != "true" {
+			continue
+		}
+		nTrue++
+		kx, ok := rs[0].(*ssa.Extract)
+		if !ok || kx.Index != 1 {
+			return false
+		}
+		nx, _ := kx.Tuple.(*ssa.Next)
+		if nx == nil {
+			return false
+		}
+		rg, _ := nx.Iter.(*ssa.Range)
+		if rg == nil {
+			return false
+		}
+		if g := loadOfGlobal(rg.X); g == nil || g.Object() != table {
+			return false
+		}
+		guard := false
+		for _, c := range flow.DomConds(ret.Block()) {
+			bo, ok := c.V.(*ssa.BinOp)
+			if !ok || bo.Op != token.EQL || !c.Pol {
+				continue
+			}
+			for _, pair := range [][2]ssa.Value{{bo.X, bo.Y}, {bo.Y, bo.X}} {
+				vx, ok := pair[0].(*ssa.Extract)
+				if ok && vx.Index == 2 && vx.Tuple == nx && pair[1] == ssa.Value(h.Params[0]) {
+					guard = true
+				}
+			}
+		}
+		if !guard {
+			return false
+		}
+	}
+	return nTrue > 0
+}
+
 func checkActionUnpack(e *Env, p *load.Program, table *types.Var) {
 	r := e.R
 	fn := p.Func(load.PkgRoot, "Action.Unpack")
@@ -167,6 +219,19 @@ func checkActionUnpack(e *Env, p *load.Program, table *types.Var) {
 						vx, ok := pair[0].(*ssa.Extract)
 						if ok && vx.Index == 2 && vx.Tuple == nx && isToLowerOf(pair[1], s) {
 							guard = true
+						}
+					}
+				}
+			}
+			if !(good && guard) {
+				// the scan sits in a helper: *a = h(lower(s))#0 behind h(...)#1, where h returns (key, true) only for
+				// the table row whose name equals its argument
+				if ex, ok := st.Val.(*ssa.Extract); ok && ex.Index == 0 {
+					if hc, ok := ex.Tuple.(*ssa.Call); ok && len(hc.Call.Args) == 1 && isToLowerOf(hc.Call.Args[0], s) && reverseLookup(flow.Callee(hc), table) {
+						if found := flow.ResultN(hc, 1); found != nil {
+							if pol, known := flow.CondHolds(flow.DomConds(b), found); known && pol {
+								good, guard = true, true
+							}
 						}
 					}
 				}
